@@ -45,7 +45,10 @@ RULE = ("(1) in-process smtp(): EVERY assignment of a reply class {220/250 | oth
 ASSUMPTIONS = [
     "the scripted server is lock-step: the reply to a command becomes readable only after the complete command was written",
     "reply classes the documents do not define (1xx and 6xx-9xx anywhere, 3xx where a final answer is due, 2xx to DATA) are accepted under "
-    "every reading (success / temporary / permanent) and counted as slack; codes always have three digits and all lines of a reply carry the same code",
+    "every reading (success / temporary / permanent) and counted as slack; all lines of a reply carry the same code; codes have three digits, except for "
+    "the end-to-end family of one-line replies that START with 1-3 bytes below '0' (blank, TAB, empty line, NUL, punctuation): such a reply carries no "
+    "reply code and is therefore never an acceptance (greeting/HELO: temporary; elsewhere temporary or permanent, both accepted); replies whose first "
+    "byte is a digit but whose second or third is not (e.g. '1:0') are not generated - the documents are silent and the program reads them arithmetically",
     "a failed write of QUIT after the verdict was known may be reported either as that verdict or as connection loss (Z without duplicate flag): slack",
     "a failed write that carries (or directly precedes) the final dot may or may not be flagged 'Possible duplicate!': slack",
     "no recipient accepted: the message report may be Z or D (never K): slack; the per-recipient letters are exact",
@@ -201,7 +204,11 @@ def phase_types(n):
     return ["greet", "helo", "mail"] + ["rcpt"] * n + ["data", "dot"]
 
 
-def classify(t, code):
+def classify(t, code, lead=None):
+    if lead:
+        # the reply does not begin with a digit: it carries no reply code, so it can never count as an acceptance (greeting / HELO:
+        # "unexpected reply" = temporary); whether it is reported as temporary or permanent elsewhere is left open
+        return "temp" if t in ("greet", "helo") else "bad"
     if t == "greet":
         return "ok" if code == 220 else "temp"
     if t == "helo":
@@ -249,9 +256,12 @@ def walk(sc, interp):
                 dup = 2
                 cmds = cmds[:-1]
             return {"recs": recs, "verdict": "Z", "dup": dup, "cmds": cmds, "open": used_open, "last": p, "why": "connection lost / stalled at phase %d (%s)" % (p, t)}
-        cl = classify(t, ph["code"])
+        cl = classify(t, ph["code"], ph.get("lead"))
         if cl == "open":
             cl = interp.get(p, "ok")
+            used_open = True
+        elif cl == "bad":
+            cl = interp.get(p, "temp")
             used_open = True
         if t == "rcpt":
             recs.append({"ok": "r", "temp": "s", "perm": "h"}[cl])
@@ -264,7 +274,8 @@ def walk(sc, interp):
                 return {"recs": recs, "verdict": "K", "dup": 0, "cmds": cmds, "open": used_open, "last": p, "why": "all phases succeeded"}
             continue
         return {"recs": recs, "verdict": "Z" if cl == "temp" else "D", "dup": 0, "cmds": cmds, "open": used_open, "last": p,
-                "why": "%s reply %d at phase %d (%s)" % (cl, ph["code"], p, t)}
+                "why": ("reply %r does not start with a digit (no reply code, never an acceptance) at phase %d (%s)" % (
+                    (vlib.unjson(ph["lead"]) + b"%03d" % ph["code"])[:8], p, t)) if ph.get("lead") else "%s reply %d at phase %d (%s)" % (cl, ph["code"], p, t)}
 
 
 def parse_remote_output(out):
@@ -311,10 +322,11 @@ def judge_remote(sc, rc, out, got_cmds):
     recs, verdict, dup = po
     if len(recs) > sc["n"]:
         return "%d recipient reports for %d recipients" % (len(recs), sc["n"]), {}
-    opens = [p for p, ph in enumerate(sc["phases"]) if ph["k"] == "reply" and classify(phase_types(sc["n"])[p], ph["code"]) == "open"]
+    kinds = {p: classify(phase_types(sc["n"])[p], ph["code"], ph.get("lead")) for p, ph in enumerate(sc["phases"]) if ph["k"] == "reply"}
+    opens = [p for p, k in kinds.items() if k in ("open", "bad")]
     first = None
     import itertools
-    for combo in itertools.product(("ok", "temp", "perm"), repeat=len(opens)):
+    for combo in itertools.product(*[("ok", "temp", "perm") if kinds[p] == "open" else ("temp", "perm") for p in opens]):
         e = walk(sc, dict(zip(opens, combo)))
         if first is None:
             first = e
@@ -413,9 +425,15 @@ def smtp_scenarios(draw):
             phases.append(ph)
             break
         nl = draw(st.sampled_from([1, 1, 2, 3]))
-        phases.append({"k": "reply", "code": code, "lines": [vlib.jsonable(draw(text_st)) for _ in range(nl)],
-                       "eol": draw(st.sampled_from(["\r\n", "\r\n", "\r\n", "\n"])),
-                       "chunks": draw(st.lists(st.integers(1, 60), max_size=4)), "nosep": draw(st.integers(0, 9)) == 0})
+        ph = {"k": "reply", "code": code, "lines": [vlib.jsonable(draw(text_st)) for _ in range(nl)],
+              "eol": draw(st.sampled_from(["\r\n", "\r\n", "\r\n", "\n"])),
+              "chunks": draw(st.lists(st.integers(1, 60), max_size=4)), "nosep": draw(st.integers(0, 9)) == 0}
+        if draw(st.integers(0, 11)) == 0:
+            # 1-3 bytes below '0' (blank, TAB, empty line, NUL, punctuation) in front of an otherwise well-formed one-line reply: what the
+            # client reads as the "code" does not begin with a digit (added after seeded change C09-D)
+            ph["lead"] = vlib.jsonable(draw(st.sampled_from([b" ", b"\t", b"\r\n", b"\n", b"\0", b"-", b"+", b"/", b"!", b"  ", b"\r\n ", b" \t "])))
+            ph["lines"] = ph["lines"][:1]
+        phases.append(ph)
     body = draw(st.sampled_from([b"", b"x\n", b"Subject: t\n\nhello\n.\n..x\n.\n", b"a" * 1020 + b"\n.b\n", (b"." + b"m" * 59 + b"\n") * 40]))
     return {"kind": "tcp", "n": n, "sender": vlib.jsonable(draw(st.sampled_from([b"sender@src.example", b"", b"a.b-c+d=e@h.src.example"]))),
             "body": vlib.jsonable(body), "phases": phases}
@@ -495,6 +513,8 @@ class Server:
                 ph = sc["phases"][p]
                 if ph["k"] == "reply":
                     data = reply_bytes(ph["code"], [vlib.unjson(x) for x in ph["lines"]], ph["eol"].encode(), ph.get("nosep"))
+                    if ph.get("lead"):
+                        data = vlib.unjson(ph["lead"]) + data
                     pos = 0
                     for c in ph.get("chunks", []):
                         if pos >= len(data):
@@ -586,7 +606,7 @@ class RemoteRunner:
             return "tcp: " + v
         recs, verdict, dup = e["obs"]
         last = e["last"]
-        nt = any(ph["k"] != "reply" or not (200 <= ph["code"] <= 399) for ph in sc["phases"][:last + 1])
+        nt = any(ph["k"] != "reply" or ph.get("lead") or not (200 <= ph["code"] <= 399) for ph in sc["phases"][:last + 1])
         cl = ["tcp:verdict_" + verdict, "tcp:n%d" % sc["n"]]
         if dup:
             cl.append("tcp:possible_duplicate")
@@ -595,6 +615,8 @@ class RemoteRunner:
             cl.append("tcp:" + ("reset" if lastph.get("rst") else lastph["k"]))
         if any(ph["k"] == "reply" and len(ph["lines"]) > 1 for ph in sc["phases"][:last + 1]):
             cl.append("tcp:multiline_reply")
+        if any(ph.get("lead") for ph in sc["phases"][:last + 1]):
+            cl.append("tcp:reply_not_starting_with_digit")
         cl += ["tcp:rcpt_" + r for r in recs]
         if e["slack"]:
             stats.slack += 1
@@ -641,7 +663,12 @@ def rspawn_scenarios(draw):
         status = ["exit", draw(st.one_of(st.sampled_from([1, 100, 111, 255]), st.integers(1, 255)))]
     else:
         status = ["kill", draw(st.sampled_from([1, 2, 3, 6, 9, 11, 13, 14, 15]))]
-    return {"kind": "rspawn", "out": vlib.jsonable(out), "status": status, "delnums": draw(st.lists(st.sampled_from([0, 1, 5, 19]), min_size=1, max_size=3, unique=True))}
+    sc = {"kind": "rspawn", "out": vlib.jsonable(out), "status": status, "delnums": draw(st.lists(st.sampled_from([0, 1, 5, 19]), min_size=1, max_size=3, unique=True))}
+    if draw(st.integers(0, 5)) == 0:
+        # qmail-remote closes all its descriptors and dies only afterwards: end-of-file on the report pipe must not be taken for the verdict
+        # before the exit status is known (added after seeded change C09-C)
+        sc["linger"] = draw(st.sampled_from([40, 120]))
+    return sc
 
 
 class RspawnRunner:
@@ -661,7 +688,7 @@ class RspawnRunner:
         out = vlib.unjson(sc["out"])
         status = tuple(sc["status"])
         se = sandbox.standin_env(self.rec, read="0", exit=status[1] if status[0] == "exit" else 0,
-                                 kill=status[1] if status[0] == "kill" else None, out=out)
+                                 kill=status[1] if status[0] == "kill" else None, out=out, linger_ms=sc.get("linger"))
         env = h.env(role="rspawn", uid=h.uids["r"], trace=False, QMAILREMOTE=sandbox.STANDIN, **se)
         cmd = b""
         for d in sc["delnums"]:
@@ -699,7 +726,8 @@ class RspawnRunner:
         if set(seen) - set(sc["delnums"]):
             return "rspawn: report for a delivery that was never requested: %r" % sorted(set(seen) - set(sc["delnums"]))
         nt = not (status == ("exit", 0) and cls == "conforming" and out[:1] == b"r" and b"\0K" in out)
-        stats.case(scenario=sc, nontrivial=nt, classes=["rspawn:" + cls, "rspawn:relayed_" + chr(seen[sc["delnums"][0]][0][0])])
+        stats.case(scenario=sc, nontrivial=nt, classes=["rspawn:" + cls, "rspawn:relayed_" + chr(seen[sc["delnums"][0]][0][0])] +
+                   (["rspawn:descriptors_closed_before_death"] if sc.get("linger") else []))
         return None
 
 
@@ -753,6 +781,9 @@ def fixed_scenarios():
             out.append(dict(base, phases=ok[:p] + [rep(c)] + ok[p + 1:]))
     out.append(dict(base, phases=ok[:3] + [rep(550), rep(450)] + ok[5:]))
     for p in range(7):
+        for lead in (b" ", b"\r\n", b"\0"):
+            out.append(dict(base, phases=ok[:p] + [dict(rep(ok[p]["code"]), lead=vlib.jsonable(lead))] + ok[p + 1:]))
+    for p in range(7):
         out.append(dict(base, phases=ok[:p] + [{"k": "close", "rst": False, "sent": 0}]))
     out.append(dict(base, phases=ok[:6] + [{"k": "close", "rst": True, "sent": 0}]))
     out.append(dict(base, phases=ok[:6] + [{"k": "stall", "rst": False, "sent": 0}]))
@@ -760,6 +791,8 @@ def fixed_scenarios():
                  (b"r\0Kok\0", ["exit", 111]), (b"r\0Kok\0", ["exit", 1]), (b"r\0Kok\0", ["kill", 11]), (b"", ["exit", 0]), (b"r\0Kok", ["exit", 0]),
                  (b"Zconn\0", ["exit", 0]), (b"K" + b"x" * 10000 + b"\0", ["exit", 0])):
         out.append({"kind": "rspawn", "out": vlib.jsonable(o), "status": s, "delnums": [0, 5]})
+    for s in (["kill", 11], ["exit", 111], ["exit", 100], ["exit", 1], ["exit", 0]):
+        out.append({"kind": "rspawn", "out": vlib.jsonable(b"r\0Kaccepted\0"), "status": s, "delnums": [3], "linger": 150})
     return out
 
 
